@@ -7,6 +7,7 @@ import Gvlean.Gen.Exec
 import Gvlean.Gen.Migrate
 import Gvlean.Gen.WellFormed
 import Gvlean.Generated.MwFacts
+import Driver.CelSexp
 
 open Go Driver
 
@@ -70,6 +71,14 @@ def stepModel (line : String) : String :=
       | some src =>
         let (o, n) := Mig.migrate src.toList
         hexBytes (String.ofList o).toUTF8.toList ++ "\t" ++ toString n
+  | ["cel", field, ast] =>
+    -- the condition text the translator model emits for this checked AST ("unmodelled" outside its coverage)
+    match (readSx ast).bind sxCel with
+    | none => "bad-op"
+    | some e =>
+      match Cel.condition field e with
+      | none => "unmodelled"
+      | some c => hexBytes c.toUTF8.toList
   | ["mw", variant, dec, kind, hx, ca, de] =>
     -- one request as observed by the oracle: did a fresh decode succeed; what does validation of the freshly decoded value return
     match unhex hx with
